@@ -17,17 +17,84 @@ PROPERTY = 'C06'
 LEAN_TARGETS = ['CpProofs.C06', 'drv_c06']
 DRIVER = 'drv_c06'
 THEOREMS = [
-    'CpProofs.C06.noBody_table_spec',
+    # tables regenerated from the live code say what the statement says
     'CpProofs.C06.legal_table_spec',
+    'CpProofs.C06.noBody_table_spec',
+    'CpProofs.C06.ie_table_spec',
+    'CpProofs.C06.redirect_table_spec',
+    # the framing invariant: one lemma per step, every sequence of steps
+    'CpProofs.C06.expires_CLok',
+    'CpProofs.C06.flatten_CLok',
+    'CpProofs.C06.etags_CLok',
+    'CpProofs.C06.gzip_CLok',
+    'CpProofs.C06.tee_CLok',
+    'CpProofs.C06.setError_CLok',
+    'CpProofs.C06.setRedirect_CLok',
+    'CpProofs.C06.encodeStage_CLok',
+    'CpProofs.C06.serveFile_CLok',
+    'CpProofs.C06.handlerStage_CLok',
+    'CpProofs.C06.hit_CLok',
+    'CpProofs.C06.applyStep_CLok',
+    'CpProofs.C06.runSteps_CLok',
+    'CpProofs.C06.finalize_ok',
+    'CpProofs.C06.respond_ok',
+    # the statement at the WSGI boundary
+    'CpProofs.C06.serve_framed',
+    'CpProofs.C06.C06_nonstream',
+    'CpProofs.C06.C06_stream_partial',
+    'CpProofs.C06.C06_cache_consistent',
+    'CpProofs.C06.C06_history',
+    'CpProofs.C06.C06_history_from_empty',
+    'CpProofs.C06.respond_head_eq_get',
+    'CpProofs.C06.C06_head',
+    'CpProofs.C06.C06_head_nonstream',
+    # what is false on the unchanged code / what the statement does not claim
+    'CpProofs.C06.C06_stream_full_false',
+    'CpProofs.C06.stream_204_keeps_body',
 ]
 LEVEL = 'proof'
-TECHNIQUE = ('Lean 4 proof: framing invariant preserved by every tool step and by every sequence of steps '
-             '(induction over the hook list), established by finalize; model tied to the real request pipeline by a '
+TECHNIQUE = ('Lean 4 proof: a framing invariant (Content-Length absent, or the body is clean bytes of exactly that length) '
+             'is preserved by every built-in tool step and by every sequence of steps (induction over the hook list), '
+             'established by set_response / finalize, and carried across requests by a cache-consistency invariant; '
+             'status tables regenerated from the live code; model tied to the real request pipeline by a '
              'bounded-exhaustive differential run with a byte-counting oracle at the WSGI boundary')
-LEVEL_TEXT = ''
-LEVEL_NOTE = ''
-TRUSTED_BASE = []
-ASSUMPTIONS = []
+LEVEL_TEXT = ('Proved in Lean over the model, for every page text / gzip function, every request (method, Accept-Encoding, '
+              'conditions, charsets, ranges), every handler (body shape incl. str / nested / raising producers / file / '
+              'static file, status action incl. HTTPError / HTTPRedirect / unexpected exception / illegal status, own '
+              'Content-Length, stream flag), every tool subset of encode, gzip, etags, caching, expires, flatten, stream '
+              'and every request history (the cache content is part of the induction): a non-streamed response has '
+              'Content-Length = delivered bytes with a clean end, except that exactly 1xx/204/205/304 (table generated '
+              'from Response.finalize) have neither; HEAD yields byte-for-byte the finalized response of the GET (status, '
+              'Content-Type, Content-Length) with zero body bytes; a streamed response that carries a Content-Length '
+              'delivers exactly that many bytes. Partial: the streamed part needs the hypothesis that the handler does '
+              'not itself set a Content-Length that is wrong for its own value; without it the statement is proved false '
+              '(finding C06-F1: str body + own Content-Length + streaming encode). json_out, multi-level nesting, the '
+              'Range parser, the multipart text and zlib are inputs/parameters of the model; bare_error after a failing '
+              'error handler is modelled but unreachable for the modelled error pages.')
+LEVEL_NOTE = ('Trusted: Lean kernel (propext, Quot.sound only), the hand model lean/CpModel/Finalize.lean as validated by the '
+              'differential run (status, Content-Length presence and value, delivered byte count, end of iteration, stream / '
+              'cache-hit flags, Content-Encoding, Content-Type base and charset per request), the PEP 3333 server emulation '
+              'that counts the bytes, the harness. zlib, md5 (entity tag = injective function of the body), page / '
+              'boundary texts, get_ranges and charset codecs other than UTF-8/Latin-1/ASCII are parameters.')
+TRUSTED_BASE = [
+    'zlib / gzip framing is an arbitrary function z : bytes -> bytes in the theorems (a stand-in in the driver; compressed '
+    'sizes are compared only through the Content-Length = delivered relation)',
+    'md5 is injective on the bodies of one case (model: entity tag = the collapsed body)',
+    'httputil.get_ranges (property C16) is an input of the model: the harness calls the real function and passes its result',
+    'the texts of the default error template, redirect notes and multipart boundaries are parameters (stand-ins in the '
+    'driver; numbers compared only where the model knows the text: handler bodies, custom error pages, bare_error)',
+    'PEP 3333 server emulation in harness/c06_real.py (headers leave with the first non-empty chunk; start_response with '
+    'exc_info re-raises once they left)',
+]
+ASSUMPTIONS = [
+    'the handler does not set a Content-Length that is wrong for the value it returns (HandlerOk); the complementary class is '
+    'exercised through the recorded witness of C06-F1 only',
+    'HEAD is compared with the status line and headers the corresponding GET first passes to start_response: a producer '
+    'that fails during body iteration after that point is the handler\'s failure (the less demanding reading)',
+    'the no-body rule (1xx/204/205/304) is claimed for non-streamed responses only, as in the statement: finalize tests '
+    'stream first (Lean: stream_204_keeps_body)',
+    'file length does not change under a static response; HTTP/1.1 requests; sizes below the cache limits; no cookies',
+]
 RULE = ('a case = handler (body shape, status action, Content-Type, optional own Content-Length / stream) x tool subset '
         'x error-page kind x a history of 1-3 requests (method, Accept-Encoding, If-None-Match, If-Match, '
         'Accept-Charset, Range); quick = systematic blocks (every status action x every body shape; every tool subset x '
@@ -71,7 +138,7 @@ TOOLS = ['encode', 'gzip', 'etags', 'caching', 'expires', 'flatten', 'stream']
 TOOL_LETTER = {'encode': 'e', 'gzip': 'g', 'etags': 't', 'caching': 'c', 'expires': 'x', 'flatten': 'f',
                'stream': 's'}
 METHODS = ['GET', 'HEAD', 'POST']
-AES = ['-', 'gzip', 'identity', 'gzipq0', 'other']
+AES = ['-', 'gzip', 'identity', 'gzipq0', 'other', 'idq0']
 CONDS = ['-', 'star', 'match', 'other']
 ACS = ['-', 'utf8', 'latin1', 'ascii', 'star']
 RANGES = ['-', 'bytes=2-5', 'bytes=2-5,7-9', 'bytes=50-', 'bytes=0-', 'bytes=-3', 'bytes=3-2', 'bytes=0-0,19-']
@@ -97,7 +164,9 @@ def normalise(case):
     tools = set(c['tools'])
     c['reqs'] = [dict(req(), **r) for r in c['reqs']]
     streaming = 'stream' in tools or c.get('hstream')
-    if c.get('hcl'):
+    if c.get('hcl') == 'u':
+        pass      # only used by the recorded finding's witness (handler length assumes UTF-8)
+    elif c.get('hcl'):
         ok = b in ALLBYTES or (b in ('text', 'latin', 'tlist') and 'encode' in tools and not streaming
                                and c.get('ct') in ('html', 'plain'))
         if not ok:
@@ -131,7 +200,10 @@ def model_line(case):
         inm = 'match' if r['inm'].startswith('"') else r['inm']
         im = 'match' if r['im'].startswith('"') else r['im']
         reqs.append(','.join([r['m'], r['ae'], inm, im, r['ac'], rg]))
-    return ' '.join([tools, page, case['ct'], str(int(bool(case['hcl']))), str(int(bool(case['hstream']))),
+    hcl = 'N'
+    if case['hcl'] and not case['body'].startswith('X:'):
+        hcl = str(R.own_length(case, R.parse_body(case['body'])[1]))
+    return ' '.join([tools, page, case['ct'], hcl, str(int(bool(case['hstream']))),
                      case['st'], body, ';'.join(reqs)])
 
 
@@ -191,9 +263,13 @@ def oracle_one(case, i, o, get_twin):
             if o['delivered'] != 0:
                 bad.append(('HEAD response delivered %d body bytes' % o['delivered'], 'head_has_body'))
         elif cl is not None and (o['aborted'] or o['delivered'] != cl):
+            sig = 'stream_cl_mismatch'
+            if case.get('hcl') and case['bname'] in TEXTY and 'encode' in case['tools'] and not o['aborted'] \
+                    and o['status'] == 200 and not o['ce']:
+                # the handler's own length on a str body under the streaming encode branch (finding C06-F1)
+                sig = 'C06-F1:own_cl_text_body_streaming_encode'
             bad.append(('streamed %d response: Content-Length=%d but %d bytes produced%s'
-                        % (code, cl, o['delivered'], ' (aborted: %s)' % o['aborted'] if o['aborted'] else ''),
-                        'stream_cl_mismatch'))
+                        % (code, cl, o['delivered'], ' (aborted: %s)' % o['aborted'] if o['aborted'] else ''), sig))
     if m == 'HEAD':
         # the GET's status line and headers as the application first committed to them: a producer that
         # fails during body iteration (after that point) is the handler's failure, and HEAD cannot see it
@@ -353,6 +429,12 @@ def systematic_quick():
             for tools in ([], ['gzip'], ['gzip', 'stream'], ['stream'], ['caching'], ['etags', 'gzip', 'encode']):
                 for m in ('GET', 'HEAD'):
                     out.append(mk('bytes', st, tools, [req(m, ae='gzip')], page=page))
+        # the 406 that tools.gzip installs itself (set_response without raising)
+        for b in ('bytes', 'gen', 'static', 'big'):
+            for tools in (['gzip'], ['gzip', 'stream'], ['gzip', 'caching'], ['gzip', 'etags', 'flatten']):
+                for m in ('GET', 'HEAD'):
+                    for hcl in (0, 1):
+                        out.append(mk(b, '-', tools, [req(m, ae='idq0')], page=page, hcl=hcl))
     # caching histories
     for tools in (['caching'], ['caching', 'gzip'], ['caching', 'etags'], ['caching', 'stream'],
                   ['caching', 'gzip', 'etags', 'encode', 'expires', 'flatten'], ['caching', 'encode', 'stream']):
